@@ -2,7 +2,7 @@
 import verif as V
 
 PROP = "C05"
-SPEC = ["Bng.Spec.C05", "Bng.Spec.C05Epoch", "Bng.Spec.C05FreeList", "Bng.Spec.C05Cluster"]
+SPEC = ["Bng.Spec.C05", "Bng.Spec.C05Epoch", "Bng.Spec.C05FreeList", "Bng.Spec.C05Cluster", "Bng.Spec.C16PppoeWhole"]
 MON = ["count", "total", "exhaustion", "lost"]
 # epoch (lease) allocator: Bng.LeaseSpec adds expiry/reclaimed to the pool monitor
 MON_EPOCH = ["count", "total", "exhaustion", "lost", "expiry", "reclaimed", "utilisation"]
@@ -21,6 +21,9 @@ COMPS = [
     V.Component("localpool", monitors=MON),
     # two/three PeerPool nodes with health flips: per-node counts, and releases that free nothing ("leak")
     V.Component("peercluster", monitors=MON + ["leak"]),
+    # the whole PPPoE server around its IPPool: free+allocated = size and allocated = address-holding sessions (+ sweeps)
+    # after every frame; the monitor is proved silent on the model (Spec.C16PppoeWhole.monitor_silent_on_model)
+    V.Component("pppoesrv", monitors=["residue", "conservation", "obs-roundtrip"]),
 ]
 LEVEL = ("Counting, exhaustion-only-when-full and release-returns are theorems over the Lean pool models for ALL "
          "operation histories and geometries; the models are tied to the real Go code by differential execution, and "
